@@ -237,6 +237,7 @@ package consensus
 //@   ensures @K1-unlock-hash result == nil && 0 <= k && k < len(txn.SiacoinInputs) ==> in.UnlockConditions.UnlockHash() == par.0.SiacoinOutput.Address
 //@   ensures @M2-maturity result == nil && 0 <= k && k < len(txn.SiacoinInputs) ==> par.0.MaturityHeight <= cheight(ms.base)
 //@   ensures @B1-balance result == nil ==> sumSCParents(*ms, ts, txn.SiacoinInputs, len(txn.SiacoinInputs)) == sumSCO(txn.SiacoinOutputs, len(txn.SiacoinOutputs)) + sumFCPayout(txn.FileContracts, len(txn.FileContracts)) + sumCur(txn.MinerFees, len(txn.MinerFees))
+//@   ensures @sufficient (forall j in 0..len(txn.SiacoinInputs) :: txn.SiacoinInputs[j].UnlockConditions.Timelock <= cheight(ms.base) && !has(ms.spends, txn.SiacoinInputs[j].ParentID) && ms.siacoinElement(ts, txn.SiacoinInputs[j].ParentID).1 && txn.SiacoinInputs[j].UnlockConditions.UnlockHash() == ms.siacoinElement(ts, txn.SiacoinInputs[j].ParentID).0.SiacoinOutput.Address && ms.siacoinElement(ts, txn.SiacoinInputs[j].ParentID).0.MaturityHeight <= cheight(ms.base)) && sumSCParents(*ms, ts, txn.SiacoinInputs, len(txn.SiacoinInputs)) == sumSCO(txn.SiacoinOutputs, len(txn.SiacoinOutputs)) + sumFCPayout(txn.FileContracts, len(txn.FileContracts)) + sumCur(txn.MinerFees, len(txn.MinerFees)) ==> result == nil
 
 // ------------------------------------------------------------ hashes and accumulator membership (T9, C04)
 //@ func (*ElementAccumulator).containsChainIndex
@@ -532,7 +533,9 @@ package consensus
 //@   let res = txn.FileContractResolutions[k]
 //@   invariant loop#1 @contracts 0 <= k && k < $n ==> CVContractValues(txn.FileContracts[k]) && txn.FileContracts[k].ProofHeight >= cheight(ms.base) && sigsOK(ms.base, txn.FileContracts[k], txn.FileContracts[k].RenterPublicKey, txn.FileContracts[k].HostPublicKey)
 //@   invariant loop#2 @contracts-done 0 <= k && k < len(txn.FileContracts) ==> CVContractValues(txn.FileContracts[k]) && txn.FileContracts[k].ProofHeight >= cheight(ms.base) && sigsOK(ms.base, txn.FileContracts[k], txn.FileContracts[k].RenterPublicKey, txn.FileContracts[k].HostPublicKey)
-//@   invariant loop#2 @revisions 0 <= k && k < $n ==> parentOK(*ms, txn.FileContractRevisions[k].Parent) && has(revised, txn.FileContractRevisions[k].Parent.ID) && txn.FileContractRevisions[k].Parent.V2FileContract.ProofHeight >= cheight(ms.base) && curRev(*ms, txn.FileContractRevisions[k].Parent).ProofHeight >= cheight(ms.base) && CVRevisionValues(curRev(*ms, txn.FileContractRevisions[k].Parent), txn.FileContractRevisions[k].Revision) && txn.FileContractRevisions[k].Revision.ProofHeight >= cheight(ms.base) && sigsOK(ms.base, txn.FileContractRevisions[k].Revision, curRev(*ms, txn.FileContractRevisions[k].Parent).RenterPublicKey, curRev(*ms, txn.FileContractRevisions[k].Parent).HostPublicKey)
+//@   invariant loop#2 @rev-parent 0 <= k && k < $n ==> parentOK(*ms, txn.FileContractRevisions[k].Parent) && has(revised, txn.FileContractRevisions[k].Parent.ID) && txn.FileContractRevisions[k].Parent.V2FileContract.ProofHeight >= cheight(ms.base)
+//@   invariant loop#2 @rev-rules 0 <= k && k < $n ==> curRev(*ms, txn.FileContractRevisions[k].Parent).ProofHeight >= cheight(ms.base) && CVRevisionValues(curRev(*ms, txn.FileContractRevisions[k].Parent), txn.FileContractRevisions[k].Revision) && txn.FileContractRevisions[k].Revision.ProofHeight >= cheight(ms.base)
+//@   invariant loop#2 @rev-keys 0 <= k && k < $n ==> sigsOK(ms.base, txn.FileContractRevisions[k].Revision, curRev(*ms, txn.FileContractRevisions[k].Parent).RenterPublicKey, curRev(*ms, txn.FileContractRevisions[k].Parent).HostPublicKey)
 //@   invariant loop#2 @distinct 0 <= k && k < l && l < $n ==> txn.FileContractRevisions[k].Parent.ID != txn.FileContractRevisions[l].Parent.ID
 //@   invariant loop#3 @resolutions 0 <= k && k < $n ==> parentOK(*ms, txn.FileContractResolutions[k].Parent) && !has(revised, txn.FileContractResolutions[k].Parent.ID) && has(resolved, txn.FileContractResolutions[k].Parent.ID) && (isa(txn.FileContractResolutions[k].Resolution, V2FileContractRenewal) ==> CVRenewalValues(txn.FileContractResolutions[k].Parent.V2FileContract, asa(txn.FileContractResolutions[k].Resolution, V2FileContractRenewal)) && asa(txn.FileContractResolutions[k].Resolution, V2FileContractRenewal).NewContract.ProofHeight >= cheight(ms.base) && sigsOK(ms.base, asa(txn.FileContractResolutions[k].Resolution, V2FileContractRenewal).NewContract, asa(txn.FileContractResolutions[k].Resolution, V2FileContractRenewal).NewContract.RenterPublicKey, asa(txn.FileContractResolutions[k].Resolution, V2FileContractRenewal).NewContract.HostPublicKey) && txn.FileContractResolutions[k].Parent.V2FileContract.RenterPublicKey.VerifyHash(ms.base.RenewalSigHash(asa(txn.FileContractResolutions[k].Resolution, V2FileContractRenewal)), asa(txn.FileContractResolutions[k].Resolution, V2FileContractRenewal).RenterSignature) && txn.FileContractResolutions[k].Parent.V2FileContract.HostPublicKey.VerifyHash(ms.base.RenewalSigHash(asa(txn.FileContractResolutions[k].Resolution, V2FileContractRenewal)), asa(txn.FileContractResolutions[k].Resolution, V2FileContractRenewal).HostSignature)) && (isa(txn.FileContractResolutions[k].Resolution, V2StorageProof) ==> cheight(ms.base) >= txn.FileContractResolutions[k].Parent.V2FileContract.ProofHeight && asa(txn.FileContractResolutions[k].Resolution, V2StorageProof).ProofIndex.ChainIndex.Height == txn.FileContractResolutions[k].Parent.V2FileContract.ProofHeight && ms.base.Elements.containsChainIndex(asa(txn.FileContractResolutions[k].Resolution, V2StorageProof).ProofIndex.Share())) && (isa(txn.FileContractResolutions[k].Resolution, V2FileContractExpiration) ==> cheight(ms.base) > txn.FileContractResolutions[k].Parent.V2FileContract.ExpirationHeight)
 //@   invariant loop#3 @distinct 0 <= k && k < l && l < $n ==> txn.FileContractResolutions[k].Parent.ID != txn.FileContractResolutions[l].Parent.ID
